@@ -15,7 +15,7 @@ import sys
 
 ROOT = os.path.dirname(os.path.dirname(os.path.abspath(__file__)))
 SEEDED = os.path.join(ROOT, "seeded")
-REPO = "/repo"
+REPO = os.environ.get("VERIF_REPO", "/repo")
 
 
 def sh(cmd, **kw):
